@@ -33,3 +33,6 @@ MUTANTS = [
     dict(name="path-names-reserved-for-everyone", file="visit/endpoint/processors/parameter_processor.py", expect="R4.4",
          old='            if param.param_in != "path":\n                taken_names |= path_param_names\n', new='            taken_names |= path_param_names\n'),
 ]
+MUTANTS.append(dict(name='url-path-loses-trailing-slash', file='visit/endpoint/generators/url_args_generator.py', expect='R4.12', old='        return f\'f"{{self.base_url}}{formatted_path}"\'\n', new='        return f\'f"{{self.base_url}}{formatted_path.rstrip("/")}"\'\n'))
+MUTANTS.append(dict(name='overload-impl-url-path-lowercased', file='visit/endpoint/generators/endpoint_method_generator.py', expect='R4.12', old='str(m.group(1)))}}}", op.path\n', new='str(m.group(1)))}}}", op.path.lower()\n'))
+MUTANTS.append(dict(name='overload-impl-dispatches-on-content-type', file='visit/endpoint/generators/endpoint_method_generator.py', expect='R4.13', old='                writer.write_line(f"if {param_info[\'name\']} is not None:")\n', new='                writer.write_line(f"if content_type == {content_type!r}:")\n'))
